@@ -95,6 +95,10 @@ MEDDLY::freelist_manager<INT>::freelist_manager(const char* n, memstats &stats)
   incMemAlloc( (1+maxEntrySize) * sizeof(INT) );
 
   entriesAlloc = 1024;
+#if defined(MEDDLY_VERIF) && defined(MEDDLY_VERIF_ARENA)
+  // verification hook: small initial arena (see hole_base.h)
+  entriesAlloc = MEDDLY_VERIF_ARENA;
+#endif
   entriesSize = 1;
   entries = (INT*) malloc(entriesAlloc * sizeof(INT) );
   if (0==entries) throw error(error::INSUFFICIENT_MEMORY, __FILE__, __LINE__);
